@@ -108,9 +108,12 @@ ClosingExitOk(r) ==
   /\ IF "close" \in cfg.se THEN OneRecord(w4, cl) ELSE w4 = << >>
   /\ r.writes = w3 \o w4
   /\ r.nometa = 0
+\* no operation panics in the application - except an event whose own field value panics while it is formatted (aborted)
+NoPanic(r) == ("panicked" \in DOMAIN r /\ r.panicked # "") => ("aborted" \in DOMAIN r /\ r.aborted)
 RecordOk(r) ==
   LET e == ExpectedRecord(r) IN
-  IF ClosingExit(r) THEN ClosingExitOk(r)
+  IF ~NoPanic(r) THEN FALSE
+  ELSE IF ClosingExit(r) THEN ClosingExitOk(r)
   ELSE IF e.tok = 0 \/ ("aborted" \in DOMAIN r /\ r.aborted) THEN r.writes = << >>          \* nothing to write (an aborted format writes nothing)
   ELSE IF "nested" \in DOMAIN r /\ r.nested /\ cfg.global THEN
     LET ne == NestedRecord(r)
